@@ -155,11 +155,32 @@ def main(argv):
                     "limit (inconclusive, not a verdict)"))
                 break
             except Exception as e:
-                result["errors"].append(dict(cls=cls, idx=idx,
-                                             tb=core.format_tb(e)))
-                if len(result["errors"]) > 20:
-                    break
-                continue
+                # An exception that the check did not expect.  If it was
+                # raised INSIDE the code under test (innermost frame under
+                # the repository) it is that code failing on an input of the
+                # property's domain: a violation with the case as witness.
+                # Anything else is trouble in the harness: inconclusive.
+                tb_ = e.__traceback__
+                while tb_ is not None and tb_.tb_next is not None:
+                    tb_ = tb_.tb_next
+                where_ = tb_.tb_frame.f_code.co_filename if tb_ else ""
+                if where_.startswith(os.path.join(core.REPO, "rig") + os.sep) \
+                        and not getattr(mod, "REPO_EXCEPTIONS_ARE_HARNESS",
+                                        False):
+                    ctx.outcomes["violation:unexpected-exception"] += 1
+                    outcome = "violation:unexpected-exception"
+                    viols = [dict(kind="unexpected-exception", key=None,
+                                  msg="%s: %s (raised in %s line %d)" % (
+                                      type(e).__name__, e,
+                                      os.path.relpath(where_, core.REPO),
+                                      tb_.tb_lineno),
+                                  detail=dict(traceback=core.format_tb(e)))]
+                else:
+                    result["errors"].append(dict(cls=cls, idx=idx,
+                                                 tb=core.format_tb(e)))
+                    if len(result["errors"]) > 20:
+                        break
+                    continue
             for v in viols:
                 if len(result["violations"]) < 40:
                     v.update(cls=cls, idx=idx, case_repr=repr(case))
